@@ -143,17 +143,17 @@ func propertyIDs() []string {
 
 func init() {
 	claim("C01", PropertySpec{
-		Engines: []EngineSpec{notQueryMode("NT"), rules("REG", "REG-dyn", "REG-type", "REG-exit"), notPrinterOnly("IX"), all("TA"), rules("ED", "ED-1", "ED-3")},
-		Clause: "Structural necessary conditions of 'never crashes', decided on every path of the current source: (NT) no nil dereference on the end-of-input path of any of the token-read call sites, and none on the miss path of any table-lookup call site; (REG-dyn) unchecked evaluator-registry lookups use registered keys and every evaluator type is registered; (REG-type) every constructible kind of T has a case in the panicking rendering switch; (REG-exit) explicit panics / non-zero exits reachable from main are exactly the reviewed set; (IX) every constant-position index/slice and every variable index into a fixed array is guarded on all paths, structurally bounded, guarded by all callers, or individually reviewed; (TA) every unchecked type assertion is dominated by a check of the same type on the same storage, discharged by the lexer kind/value pairing analysis or by a container invariant, or individually reviewed; (ED-1, ED-3) diagnostics are recorded by a single writer in one format and their text cannot contain a line break. The behaviour itself (exit status, output format) is not decided.",
-		NotCovered: "variable-index bounds, nil values stored in slices/fields and dereferenced later, stack exhaustion, out-of-memory, rendering text, correlated-predicate paths (reviewed exceptions listed)",
+		Engines: []EngineSpec{notQueryMode("NT"), rules("REG", "REG-dyn", "REG-type", "REG-exit"), notPrinterOnly("IX"), notPrinterOnly("IV"), all("TA"), rules("ED", "ED-1", "ED-3")},
+		Clause: "Structural necessary conditions of 'never crashes', decided on every path of the current source: (NT) no nil dereference on the end-of-input path of any of the token-read call sites, and none on the miss path of any table-lookup call site; (REG-dyn) unchecked evaluator-registry lookups use registered keys and every evaluator type is registered; (REG-type) every constructible kind of T has a case in the panicking rendering switch; (REG-exit) explicit panics / non-zero exits reachable from main are exactly the reviewed set; (IX) every constant-position index/slice and every variable index into a fixed array is guarded on all paths, structurally bounded, guarded by all callers, or individually reviewed; (IX-var) every variable-position index/slice on a slice or string is in bounds by a difference-constraint argument over the dominating comparisons, summaries of boolean helpers, counters that only grow, lengths of made / step-wise appended slices, and the same facts at every static caller — or individually reviewed; (TA) every unchecked type assertion is dominated by a check of the same type on the same storage, discharged by the lexer kind/value pairing analysis or by a container invariant, or individually reviewed; (ED-1, ED-3) diagnostics are recorded by a single writer in one format and their text cannot contain a line break. The behaviour itself (exit status, output format) is not decided.",
+		NotCovered: "nil values stored in slices/fields and dereferenced later, stack exhaustion, out-of-memory, rendering text, correlated-predicate paths (reviewed exceptions listed)",
 	}, propMeta{Technique: "abstract interpretation over go/ssa (nilness/constant lattice, interprocedural summaries, EOF and lookup-miss environments) + registry exhaustiveness over resolved constants + call-graph reachability of exits",
 		LevelText: "every rule instance in the source is enumerated and decided (exhaustive over call sites, not over inputs); a violated or undecided instance fails the check. This is a necessary-condition check, weaker than a proof of the property and stronger than any input sample: the nil path of each read is taken whether or not a test reaches it.",
 		LevelNote: "trusts go/types, go/ssa, VTA call graph (x/tools v0.50.0); reader protocol axiom (Read yields nil for ever at EOF) re-derived structurally under C02/C03; reviewed exceptions are printed in the evidence", DesignRef: "4 NT, REG; 5 C01"})
 
 	claim("C02", PropertySpec{
-		Engines: []EngineSpec{all("EL"), all("REC"), rules("RCL", "RCL-progress", "RCL-cycle")},
-		Clause: "Structural necessary conditions of 'terminates without the watchdog': (EL) every non-range loop whose body reads input (47 today) leaves when the input is exhausted — decided by abstract execution from the loop header in the EOF environment with unknown loop-carried state; loops that do not read input need a recognised ranking function or a reviewed exception; (REC) recursion over the user-defined inheritance graph carries a cycle guard; (RCL) in the lexer every delivered token and every loop iteration consumes at least one rune, for every rune class.",
-		NotCovered: "livelock on non-empty input above the lexer (token-level read/unget ping-pong in the evaluator), termination of the evaluator's mutual recursion, getChainMethodReturnType (depends on TFrame contents), the watchdog firing under machine load",
+		Engines: []EngineSpec{all("EL"), all("REC"), rules("RCL", "RCL-progress", "RCL-cycle"), all("TCL")},
+		Clause: "Structural necessary conditions of 'terminates without the watchdog': (EL) every non-range loop whose body reads input (47 today) leaves when the input is exhausted — decided by abstract execution from the loop header in the EOF environment with unknown loop-carried state; loops that do not read input need a recognised ranking function or a reviewed exception; (REC) recursion over the user-defined inheritance graph carries a cycle guard; (RCL) in the lexer every delivered token and every loop iteration consumes at least one rune, for every rune class; (TCL) no loop of the parser or the evaluator that can reach the token reader comes back to its header without having consumed a token (net of un-gets), by summaries over the call graph with every branch taken both ways.",
+		NotCovered: "termination of the evaluator's mutual recursion, getChainMethodReturnType (depends on TFrame contents), the watchdog firing under machine load",
 	}, propMeta{Technique: "abstract interpretation of loops at EOF over go/ssa (ranking argument: remaining input is 0 and cannot decrease) + call-graph SCC rule for graph recursion",
 		LevelText: "all input-driven loops and all graph recursions of the source are enumerated and decided; a cycle that returns to the loop header in an unchanged abstract state at EOF is a definite non-termination (every witness is a truncated file).",
 		LevelNote: "trusts go/ssa loop structure (dominator back edges); integers are widened beyond ±24; the reader protocol (nil token for ever at EOF)", DesignRef: "4 EL, REC; 5 C02"})
